@@ -215,7 +215,8 @@ def _same(a, b):
 class _AllAccept(And):
     """Every combined function accepts the call (z3); really evaluated by calling the Combination itself."""
     def __init__(self, shapes, comb):
-        And.__init__(self, *[Acc(sh) for sh in shapes])
+        # the call must bind to Combination.__call__(arg, *args, **kwargs) itself, then to every function
+        And.__init__(self, Acc(Shape(pok=[('arg', False)], va='args', vk='kwargs')), *[Acc(sh) for sh in shapes])
         self.comb = comb
 
     def real(self, call):
